@@ -36,6 +36,7 @@ type Prog struct {
 
 	fidx          *fieldIndex
 	rolesCache    *Roles
+	reach         map[*ssa.Function]bool
 	staticCallers map[*ssa.Function][]ssa.CallInstruction
 }
 
@@ -503,4 +504,75 @@ func (p *Prog) freeVarBindings(fv *ssa.FreeVar) []ssa.Value {
 		}
 	}
 	return out
+}
+
+// reachableFromMain computes an RTA-style over-approximation of the repo functions reachable from cmd.main and the
+// package initialisers: static calls, closures, function values, interface invokes resolved over the repo's
+// concrete types, and every method of a concrete type that is converted to an interface in reachable code.
+func (p *Prog) reachableFromMain() map[*ssa.Function]bool {
+	if p.reach != nil {
+		return p.reach
+	}
+	reach := map[*ssa.Function]bool{}
+	var work []*ssa.Function
+	add := func(f *ssa.Function) {
+		if f == nil || reach[f] {
+			return
+		}
+		reach[f] = true
+		work = append(work, f)
+	}
+	mainPkg := p.SSAPkgs[modPath+"/cmd"]
+	if mainPkg == nil || mainPkg.Func("main") == nil {
+		brokenf("package cmd / func main not found")
+	}
+	add(mainPkg.Func("main"))
+	for _, sp := range p.SSAPkgs {
+		add(sp.Func("init"))
+	}
+	addMethods := func(T types.Type) {
+		n, ok := T.(*types.Named)
+		if pt, isPtr := T.(*types.Pointer); isPtr {
+			n, ok = pt.Elem().(*types.Named)
+		}
+		if !ok || n.Obj().Pkg() == nil || !strings.HasPrefix(n.Obj().Pkg().Path(), modPath) {
+			return
+		}
+		for _, TT := range []types.Type{T, types.NewPointer(n)} {
+			ms := p.SSA.MethodSets.MethodSet(TT)
+			for i := 0; i < ms.Len(); i++ {
+				add(p.SSA.MethodValue(ms.At(i)))
+			}
+		}
+	}
+	for len(work) > 0 {
+		f := work[0]
+		work = work[1:]
+		for _, b := range f.Blocks {
+			for _, ins := range b.Instrs {
+				for _, op := range ins.Operands(nil) {
+					if op == nil || *op == nil {
+						continue
+					}
+					if fn, ok := (*op).(*ssa.Function); ok {
+						add(fn)
+					}
+				}
+				switch x := ins.(type) {
+				case *ssa.MakeClosure:
+					add(x.Fn.(*ssa.Function))
+				case *ssa.MakeInterface:
+					addMethods(x.X.Type())
+				case ssa.CallInstruction:
+					if x.Common().IsInvoke() {
+						for _, impl := range p.implsOf(x.Common().Method) {
+							add(impl)
+						}
+					}
+				}
+			}
+		}
+	}
+	p.reach = reach
+	return reach
 }
